@@ -242,6 +242,10 @@ impl Property for C12 {
     fn id(&self) -> &'static str {
         "C12"
     }
+    fn case_deadline_s(&self) -> Option<u64> {
+        // the statement claims termination; ordinary cases take milliseconds
+        Some(60)
+    }
     fn rule(&self) -> String {
         "tape -> program (all strata incl. recursion, empty enums, bit sequences, compact wrappers, maps, 1-tuples, \
          Duration) -> registry; for EVERY type id and seeds {0, 1, u64::MAX, tape-random}: scale_value_from_seed under catch_unwind; a returned \
